@@ -234,29 +234,46 @@ def m_message_merge(it, a, ty, callee):
     return res_ok(UNIT)
 
 
+def _skip(data, pos, w, tag, depth):
+    """position after the field of wire type `w` that starts at `pos`, or None for a decode error (prost::encoding::skip_field)"""
+    if depth > 100:
+        return None
+    if w == VARINT:
+        k = _varint(data, pos)
+        return None if k is None else k[1]
+    if w == FIXED64:
+        return pos + 8 if pos + 8 <= len(data) else None
+    if w == FIXED32:
+        return pos + 4 if pos + 4 <= len(data) else None
+    if w == LEN:
+        k = _varint(data, pos)
+        if k is None or k[1] + k[0] > len(data):
+            return None
+        return k[1] + k[0]
+    if w == SGROUP:
+        while True:
+            k = _varint(data, pos)
+            if k is None or k[0] > 0xFFFFFFFF:
+                return None
+            key, pos = k
+            iw, itag = key & 7, key >> 3
+            if iw > 5 or itag < 1:
+                return None
+            if iw == EGROUP:
+                return pos if itag == tag else None
+            pos = _skip(data, pos, iw, itag, depth + 1)
+            if pos is None:
+                return None
+    return None            # an end-group tag outside a group
+
+
 def m_skip_field(it, a, ty, callee):
     wt, tag, buf, ctx = a
     p = _buf_ptr(it, buf)
     data = _bytes_of(it, p)
-    w = _wt(wt)
-    if w == VARINT:
-        k = _varint(data, 0)
-        if k is None:
-            return _err('invalid varint')
-        n = k[1]
-    elif w == FIXED64:
-        n = 8
-    elif w == FIXED32:
-        n = 4
-    elif w == LEN:
-        k = _varint(data, 0)
-        if k is None:
-            return _err('invalid varint')
-        n = k[1] + k[0]
-    else:
-        raise Inconclusive('protobuf groups are not modelled')
-    if n > len(data):
-        return _err('buffer underflow')
+    n = _skip(data, 0, _wt(wt), _tag(tag), 0)
+    if n is None:
+        return _err('cannot skip field')
     _set_buf(it, p, data[n:])
     return res_ok(UNIT)
 
@@ -375,11 +392,19 @@ def m_encode_to_vec(it, a, ty, callee):
     return it.load(Ptr(buf))
 
 
+def m_encode(it, a, ty, callee):
+    """Message::encode(&self, &mut impl BufMut): growable buffers (Vec, BytesMut) never lack capacity"""
+    m = re.match(r'^<(.*) as prost::Message>::encode::<.*>$', callee, re.S)
+    it.call('<%s as prost::Message>::encode_raw' % m.group(1), [a[0], a[1]], None)
+    return res_ok(UNIT)
+
+
 def install(it):
     A = it.add_model
     P = r'<protocol::libp2p::(?:bitswap::schema::bitswap|kademlia::schema::kademlia)::\w+(?:::\w+)* as prost::Message>'
     A(P + r'::decode::<.*>', m_decode)
     A(P + r'::encode_to_vec', m_encode_to_vec)
+    A(P + r'::encode::<(?:bytes::BytesMut|std::vec::Vec<u8>)>', m_encode)
     A(r'prost::encoding::bytes::merge::<.*>', m_bytes_merge)
     A(r'prost::encoding::bytes::merge_repeated::<.*>', m_bytes_merge_repeated)
     A(r'prost::encoding::int32::merge::<.*>', _varint_merge(_i32))
